@@ -64,6 +64,7 @@ fn pattern_to_regex_str(pattern: &str, enable_extended_globbing: bool) -> (r: Re
 { unimplemented!() }
 // sibling helper of patterns.rs (delegates to the PEG grammar): abstract
 pub uninterp spec fn requires_expansion_spec(s: Seq<char>, ext: bool) -> bool;
+pub open spec fn raw_piece_text(p: PatternPiece) -> Seq<char> { match p { PatternPiece::Pattern(s) => s@, PatternPiece::Literal(s) => s@ } }
 #[verifier::external_body]
 fn requires_expansion(s: &str, enable_extended_globbing: bool) -> (r: bool) ensures r == requires_expansion_spec(s@, enable_extended_globbing) { unimplemented!() }
 ''')
@@ -118,7 +119,20 @@ fn requires_expansion(s: &str, enable_extended_globbing: bool) -> (r: bool) ensu
         C('C08 exact-match-is-anchored-both-ends', '''res is Ok ==> %s is Ok
     && match_sem(fix_brackets(seq!['^'] + %s->Ok_0 + seq!['$']), regex::flags_of(self.multiline), self.case_insensitive, value@) == Some(res->Ok_0)''' % (T, T))])
     u.add(em)
-    u.raw('}\n}\n')
+    u.raw('}\n')
+    # --- the glob-or-not decision of Pattern::expand: the predicate handed to `iter().any(..)` at its two sites (R6 block slices of the
+    #     closure bodies).  Only an UNQUOTED piece can ask for pathname expansion.
+    ip = pt.item(r'^impl PatternPiece ', 'impl PatternPiece').r1().r11()
+    ip.sig('as_str', ret='r', ensures=[C('aux piece-string', 'r@ == raw_piece_text(*self)')])
+    u.add(ip)
+    for k, (open_re, nm) in enumerate([(r'^\s*\} else if !self\.pieces\.iter\(\)\.any\(\|piece\| \{$', 'whole_word_glob_predicate'),
+                                      (r'^\s*if !component\.iter\(\)\.any\(\|piece\| \{$', 'component_glob_predicate')]):
+        d = pt.block_slice(open_re, 'fn %s(self_: &Pattern, piece: &PatternPiece) -> bool' % nm, nm, within_fn='expand')
+        d.r1().resub(r'\bself\.', 'self_.', 'R6', 'slice wrapper: self -> self_', count=None)
+        d.sig(nm, ret='r', ensures=[
+            C('C04,C05,C08 only-an-unquoted-piece-can-ask-for-pathname-expansion', 'r == (*piece is Pattern && requires_expansion_spec(raw_piece_text(*piece), self_.enable_extended_globbing))')])
+        u.add(d)
+    u.raw('}\n')
     # --- expansion.rs
     u.add(ex.item(r'^enum ExpansionPiece ', 'ExpansionPiece').r1(keep_derive=()).r11())
     u.prelude('patterns/text_spec.rs')
